@@ -8,6 +8,7 @@ INVARIANTS
   NoFailure
   FoldAgrees
   HostOnlyDuringSetup
+  NoPropagation
   RootIsReadOnly
   OldRootUnreachable
   OnlyConfiguredNames
